@@ -624,6 +624,22 @@ func (w *World) noteMeltErrorAfterPay(q *MMeltQuote, inputs cashu.Proofs, pays [
 	// and let the ledger decide. Flag for C06 (error answer after a side effect).
 	w.Flag("C06", "melt_error_after_payment_attempt", "melt answered %v after %d pay call(s)", err, len(pays))
 	w.ResyncProofStates(inputs, q)
+	// by the ground truth the inputs are paid for (or locked by a payment in flight), whatever the mint's tables say
+	// after its error: keep them so in the model, so that a state report of UNSPENT or a later acceptance elsewhere is
+	// seen as the double spend it is
+	if t := w.payTruth(q); t == lnmodel.TruthSucceeded || t == lnmodel.TruthInflight {
+		for _, in := range inputs {
+			if mp := w.M.Proofs[in.Secret]; mp != nil && mp.State == Unspent {
+				if t == lnmodel.TruthSucceeded {
+					mp.State = Spent
+					w.M.Redeemed[mp.P.Id] += mp.P.Amount
+				} else {
+					mp.State, mp.PendingQ = Pending, q.Idx
+				}
+				mp.SpentBy, mp.SpentWitness = "melt(answered with an error, payment "+t.String()+")", in.Witness
+			}
+		}
+	}
 }
 
 func secretsOf(ps cashu.Proofs) []string {
